@@ -272,88 +272,68 @@ def pdataTypeTag : AnyValue → Nat
   | .empty => 0 | .str _ => 1 | .int _ => 2 | .dbl _ => 3 | .bool _ => 4 | .map _ => 5 | .slice _ => 6 | .bytes _ => 7
 
 mutual
-  /-- otlptools.CmpVal; `none` = `panic("comparison not implemented")` -/
-  def cmpVal : AnyValue → AnyValue → Option Int
-    | .str a, .str b => some (strCompare a b)
-    | .int a, .int b => some (int64Compare a b)
-    | .bool a, .bool b => some (boolCompare a b)
+  /-- otlptools.CmpVal (total since repo commit 679d5d5, which added the double, bytes and map cases;
+      before it those kinds panicked with "comparison not implemented") -/
+  def cmpVal : AnyValue → AnyValue → Int
+    | .str a, .str b => strCompare a b
+    | .int a, .int b => int64Compare a b
+    | .bool a, .bool b => boolCompare a b
     | .slice a, .slice b =>
-      if a.length != b.length then some ((a.length : Int) - (b.length : Int)) else cmpValSlice a b
-    | .empty, .empty => some 0
-    | a, b => if pdataTypeTag a != pdataTypeTag b then some ((pdataTypeTag a : Int) - (pdataTypeTag b : Int)) else none
-  def cmpValSlice : Values → Values → Option Int
-    | .cons a as, .cons b bs =>
-      match cmpVal a b with
-      | none => none
-      | some c => if c != 0 then some c else cmpValSlice as bs
-    | _, _ => some 0
+      if a.length != b.length then (a.length : Int) - (b.length : Int) else cmpValSlice a b
+    | .empty, .empty => 0
+    | .dbl a, .dbl b => float64Compare a b
+    | .bytes a, .bytes b => strCompare a b
+    | .map a, .map b =>
+      -- CmpAttrs: keys over the common prefix, then lengths, then values pairwise
+      firstNonZero (cmpKeyPrefix a.keys b.keys)
+        (if a.length != b.length then (a.length : Int) - (b.length : Int) else cmpAttrValues a b)
+    | a, b => (pdataTypeTag a : Int) - (pdataTypeTag b : Int)
+  def cmpValSlice : Values → Values → Int
+    | .cons a as, .cons b bs => firstNonZero (cmpVal a b) (cmpValSlice as bs)
+    | _, _ => 0
+  def cmpAttrValues : KVs → KVs → Int
+    | .cons _ a as, .cons _ b bs => firstNonZero (cmpVal a b) (cmpAttrValues as bs)
+    | _, _ => 0
 end
 
-def cmpAttrValues : KVs → KVs → Option Int
-  | .cons _ a as, .cons _ b bs =>
-    match cmpVal a b with
-    | none => none
-    | some c => if c != 0 then some c else cmpAttrValues as bs
-  | _, _ => some 0
-
 /-- otlptools.CmpAttrs -/
-def cmpAttrs (a b : KVs) : Option Int :=
-  let kc := cmpKeyPrefix a.keys b.keys
-  if kc != 0 then some kc
-  else if a.length != b.length then some ((a.length : Int) - (b.length : Int))
-  else cmpAttrValues a b
+def cmpAttrs (a b : KVs) : Int :=
+  firstNonZero (cmpKeyPrefix a.keys b.keys)
+    (if a.length != b.length then (a.length : Int) - (b.length : Int) else cmpAttrValues a b)
 
-def cmpResourceSpans (a b : ResourceSpans) : Option Int :=
-  let c := strCompare a.url b.url
-  if c != 0 then some c else cmpAttrs a.attrs b.attrs
+/-- otlptools.CmpResourceSpans (the dropped-attributes count is compared last since 679d5d5) -/
+def cmpResourceSpans (a b : ResourceSpans) : Int :=
+  firstNonZero (strCompare a.url b.url) <|
+  firstNonZero (cmpAttrs a.attrs b.attrs) (natCompare a.dropped b.dropped)
 
-def cmpScopeSpans (a b : ScopeSpans) : Option Int :=
-  let c := strCompare a.name b.name
-  if c != 0 then some c else
-  let c := strCompare a.ver b.ver
-  if c != 0 then some c else
-  let c := strCompare a.url b.url
-  if c != 0 then some c else cmpAttrs a.attrs b.attrs
+/-- otlptools.CmpScopeSpans -/
+def cmpScopeSpans (a b : ScopeSpans) : Int :=
+  firstNonZero (strCompare a.name b.name) <|
+  firstNonZero (strCompare a.ver b.ver) <|
+  firstNonZero (strCompare a.url b.url) <|
+  firstNonZero (cmpAttrs a.attrs b.attrs) (natCompare a.dropped b.dropped)
 
 /-! ### stable sort and merging of equal neighbours (sorting mode) -/
 
 /-- sort.SliceStable with `less a b := cmp a b < 0` (insertion; every stable sort agrees when the
-    comparison is a consistent order). `none` when a comparison panics. -/
-def insertStable {α : Type} (cmp : α → α → Option Int) (x : α) : List α → Option (List α)
-  | [] => some [x]
-  | y :: t =>
-    match cmp y x with
-    | none => none
-    | some c =>
-      if c < 0 then
-        match insertStable cmp x t with
-        | none => none
-        | some t' => some (y :: t')
-      else some (x :: y :: t)
+    comparison is a consistent order). -/
+def insertStable {α : Type} (cmp : α → α → Int) (x : α) : List α → List α
+  | [] => [x]
+  | y :: t => if cmp y x < 0 then y :: insertStable cmp x t else x :: y :: t
 
 /-- elements are inserted from the back, each one in front of the first element that is not
     smaller than it, so that equal elements keep their order -/
-def sortStable {α : Type} (cmp : α → α → Option Int) : List α → Option (List α)
-  | [] => some []
-  | x :: t =>
-    match sortStable cmp t with
-    | none => none
-    | some t' => insertStable cmp x t'
+def sortStable {α : Type} (cmp : α → α → Int) : List α → List α
+  | [] => []
+  | x :: t => insertStable cmp x (sortStable cmp t)
 
 /-- the merge loop: an element equal to its left neighbour is folded into it -/
-def mergeFrom {α : Type} (cmp : α → α → Option Int) (merge : α → α → α) : α → List α → Option (List α)
-  | cur, [] => some [cur]
-  | cur, y :: t =>
-    match cmp cur y with
-    | none => none
-    | some c =>
-      if c == 0 then mergeFrom cmp merge (merge cur y) t
-      else match mergeFrom cmp merge y t with
-        | none => none
-        | some t' => some (cur :: t')
+def mergeFrom {α : Type} (cmp : α → α → Int) (merge : α → α → α) : α → List α → List α
+  | cur, [] => [cur]
+  | cur, y :: t => if cmp cur y == 0 then mergeFrom cmp merge (merge cur y) t else cur :: mergeFrom cmp merge y t
 
-def mergeAdjacent {α : Type} (cmp : α → α → Option Int) (merge : α → α → α) : List α → Option (List α)
-  | [] => some []
+def mergeAdjacent {α : Type} (cmp : α → α → Int) (merge : α → α → α) : List α → List α
+  | [] => []
   | x :: t => mergeFrom cmp merge x t
 
 /-- sortSpans: trace id descending, then parent span id descending, then start time ascending -/
@@ -376,34 +356,14 @@ def mergeScopes (a b : ScopeSpans) : ScopeSpans := { a with spans := a.spans ++ 
 def mergeResources (a b : ResourceSpans) : ResourceSpans := { a with scopes := a.scopes ++ b.scopes }
 
 /-- the `if d.Sorted` blocks for one resource: sort and merge scopes, sort the spans of each -/
-def sortResourceScopes (r : ResourceSpans) : Option ResourceSpans :=
-  match sortStable cmpScopeSpans r.scopes with
-  | none => none
-  | some ss =>
-    match mergeAdjacent cmpScopeSpans mergeScopes ss with
-    | none => none
-    | some ss => some { r with scopes := ss.map (fun s => { s with spans := sortSpans s.spans }) }
+def sortScopeSpans (s : ScopeSpans) : ScopeSpans := { s with spans := sortSpans s.spans }
 
-def mapOpt {α β : Type} (f : α → Option β) : List α → Option (List β)
-  | [] => some []
-  | x :: t =>
-    match f x with
-    | none => none
-    | some y => match mapOpt f t with
-      | none => none
-      | some t' => some (y :: t')
+def sortResourceScopes (r : ResourceSpans) : ResourceSpans :=
+  { r with scopes := (mergeAdjacent cmpScopeSpans mergeScopes (sortStable cmpScopeSpans r.scopes)).map sortScopeSpans }
 
 /-- what the sorting mode turns the input into before the records are written -/
-def sortTraces (t : Traces) : Option Traces :=
-  match sortStable cmpResourceSpans t.rss with
-  | none => none
-  | some rs =>
-    match mergeAdjacent cmpResourceSpans mergeResources rs with
-    | none => none
-    | some rs =>
-      match mapOpt sortResourceScopes rs with
-      | none => none
-      | some rs => some { rss := rs }
+def sortTraces (t : Traces) : Traces :=
+  { rss := (mergeAdjacent cmpResourceSpans mergeResources (sortStable cmpResourceSpans t.rss)).map sortResourceScopes }
 
 /-! ### writing the records -/
 
@@ -430,14 +390,10 @@ def writeResourceSpans (sorted : Bool) : List ResourceSpans → TState → TStat
     let res : STRes := { url := r.url, attrs := SAttrs.mapUnsorted r.attrs st.cur.resource.attrs, dropped := r.dropped }
     writeResourceSpans sorted rs (writeScopeSpans sorted r.scopes { st with cur := { st.cur with resource := res } })
 
-/-- OtlpToStefUnsorted.Convert: the logical value of the record at each Write(), in order.
-    `none`: the sorting mode panicked in otlptools.CmpVal. -/
-def tracesToStef (sorted : Bool) (t : Traces) : Option (List SpanRecord) :=
-  if sorted then
-    match sortTraces t with
-    | none => none
-    | some t' => some (writeResourceSpans true t'.rss {}).out.reverse
-  else some (writeResourceSpans false t.rss {}).out.reverse
+/-- OtlpToStefUnsorted.Convert: the logical value of the record at each Write(), in order. -/
+def tracesToStef (sorted : Bool) (t : Traces) : List SpanRecord :=
+  if sorted then (writeResourceSpans true (sortTraces t).rss {}).out.reverse
+  else (writeResourceSpans false t.rss {}).out.reverse
 
 /-- spans of a batch with their resource and scope, in document order -/
 def flattenSpans (t : Traces) : List (ResourceSpans × ScopeSpans × Span) :=
